@@ -203,6 +203,8 @@ class Env(object):
         self.calls = []            # names of intercepted calls, in order (vacuity / debugging)
         self.no_more_timeouts = False
         self.idle = 0
+        self.eager_reader = False
+        self.blocked = {}          # label -> virtual seconds spent blocked there
         self.idle_limit = 3
         self.popen_dirty = True
         self.baton = None
@@ -299,6 +301,11 @@ class Env(object):
             a.arg.shutdown(_socket.SHUT_WR)
         else:
             raise HarnessError('unknown action %r' % (a,))
+        if self.eager_reader and self.baton is not None:
+            g = 0
+            while self.baton.enabled() and g < 100000:
+                g += 1
+                self.baton.step()
 
     def peer_write(self, fd, data):
         if fd not in self.fds:
@@ -376,7 +383,7 @@ class Env(object):
         self.fire_due()
         if not self.sched_enabled:
             return
-        baton = self.baton
+        baton = None if self.eager_reader else self.baton
         if baton is None:
             n = self.untimed_ready()
             if n:
@@ -432,6 +439,14 @@ class Env(object):
         ever wake the caller."""
         deadline = None if timeout is None else CLOCK.now + timeout
         guard = 0
+        t_in = CLOCK.now
+        try:
+            return self._block_until(ready, deadline, label)
+        finally:
+            self.blocked[label] = self.blocked.get(label, 0.0) + (CLOCK.now - t_in)
+
+    def _block_until(self, ready, deadline, label):
+        guard = 0
         while True:
             guard += 1
             if guard > 10000:
@@ -480,7 +495,7 @@ class Env(object):
         """Optionally interrupt a wait: advances the clock by part of the timeout and raises EINTR."""
         if self.eintr_budget <= 0:
             return
-        opts = [None, 0.0, 0.5, 1.5]          # fraction of the timeout already elapsed when the signal lands
+        opts = [None, 0.0, 0.5, 0.999]        # fraction of the timeout already elapsed when the signal lands
         c = self.ch.choose(len(opts), label + '-eintr')
         if c:
             self.eintr_budget -= 1
